@@ -177,6 +177,30 @@ func (engine) Run(src *sim.Src, log *sim.Log, res *sim.Result) {
 			planned = []int{heavy[src.Draw(len(heavy))], shipped[src.Draw(len(shipped))]}
 		}
 	}
+	// the same path holding two different grammars, one after the other, with identical
+	// size and modification time (coarse timestamps, `cp -p`, hermetic sandboxes): anything
+	// that recognises a grammar by its file metadata instead of its content shows here
+	var rewriteDir string
+	if planned == nil && src.Chance(1, 25) {
+		var cands []int
+		for _, i := range light {
+			if cfg.Pool[i].Lang != "cc" && !cfg.Pool[i].Committed && rewritable(cfg.Pool[i].Path) {
+				cands = append(cands, i)
+			}
+		}
+		if len(cands) >= 2 {
+			a := cands[src.Draw(len(cands))]
+			b := cands[src.Draw(len(cands))]
+			if a != b {
+				if d, err := os.MkdirTemp("/var/tmp", "zzdetsim-rewrite."); err == nil {
+					rewriteDir = d
+					defer os.RemoveAll(d)
+					planned = []int{a, b}
+					res.Fault("file-replaced-same-size-and-mtime")
+				}
+			}
+		}
+	}
 	if planned != nil {
 		n = len(planned)
 	}
@@ -194,6 +218,16 @@ func (engine) Run(src *sim.Src, log *sim.Log, res *sim.Result) {
 		}
 		hist = append(hist, p.ID)
 		ref := cfg.Refs[p.ID]
+		if rewriteDir != "" {
+			// both grammars live, one after the other, in the same file
+			cp := *p
+			cp.Path = filepath.Join(rewriteDir, "grammar.tm")
+			if err := writePadded(cp.Path, p.Path, rewriteSize(cfg.Pool[planned[0]].Path, cfg.Pool[planned[1]].Path)); err != nil {
+				res.Skipped = "cannot write scratch grammar: " + err.Error()
+				return
+			}
+			p = &cp
+		}
 
 		st := &zzsim.State{Policies: map[string]zzsim.SitePolicy{}}
 		desc := stepDesc{Grammar: p.ID, Policies: map[string]string{}}
@@ -300,6 +334,50 @@ func (engine) Run(src *sim.Src, log *sim.Log, res *sim.Result) {
 	}
 	res.NonTriv = res.Faults["map-order-permuted"] > 0
 	res.Decoded = map[string]any{"history": hist, "steps": steps}
+}
+
+// rewritable: a grammar that can be padded with a trailing comment (no template section).
+func rewritable(path string) bool {
+	b, err := os.ReadFile(path)
+	return err == nil && !strings.Contains(string(b), "\n%%")
+}
+
+func rewriteSize(a, b string) int {
+	fa, _ := os.Stat(a)
+	fb, _ := os.Stat(b)
+	n := int(fa.Size())
+	if int(fb.Size()) > n {
+		n = int(fb.Size())
+	}
+	return n + 4
+}
+
+var rewriteTime = time.Date(2020, 1, 1, 0, 0, 0, 0, time.UTC)
+
+// writePadded copies src to dst, padded with a trailing comment to exactly size bytes,
+// and gives it a fixed modification time.
+func writePadded(dst, src string, size int) error {
+	b, err := os.ReadFile(src)
+	if err != nil {
+		return err
+	}
+	if !strings.HasSuffix(string(b), "\n") {
+		b = append(b, '\n')
+	}
+	pad := size - len(b)
+	if pad >= 2 {
+		b = append(b, '#')
+		b = append(b, []byte(strings.Repeat("-", pad-2))...)
+		b = append(b, '\n')
+	} else {
+		for ; pad > 0; pad-- {
+			b = append(b, '\n')
+		}
+	}
+	if err := os.WriteFile(dst, b, 0o644); err != nil {
+		return err
+	}
+	return os.Chtimes(dst, rewriteTime, rewriteTime)
 }
 
 func sortedPol(m map[string]string) []string {
